@@ -500,7 +500,9 @@ def _check_aggregates(model, table, enabled, out, stats, phase_arg):
                         if abs(sr["Efficiency (%)"] - e) > 1e-6 or sr["Efficiency (%)"] > 100.0 + 1e-9:
                             out.append(("C07", "subsystem-efficiency", "phase %r Subsystem %s: eff=%r want %r" % (ph, s, sr["Efficiency (%)"], e)))
                             return
-                    if has_energy and abs(sr["24h energy (Wh)"] - energy(ph, P)) > 1e-9 * abs(energy(ph, P)) + 1e-15:
+                    if has_energy and not isinstance(sr["24h energy (Wh)"], (int, float)):
+                        out.append(("C07", "subsystem-energy", "phase %r Subsystem %s: energy cell %r is not a number" % (ph, s, sr["24h energy (Wh)"])))
+                    elif has_energy and abs(sr["24h energy (Wh)"] - energy(ph, P)) > 1e-9 * abs(energy(ph, P)) + 1e-15:
                         out.append(("C07", "subsystem-energy", "phase %r Subsystem %s: E=%r want %r" % (ph, s, sr["24h energy (Wh)"], energy(ph, P))))
                         return
             t = table.total.get(ph)
@@ -520,11 +522,15 @@ def _check_aggregates(model, table, enabled, out, stats, phase_arg):
             if has_energy:
                 for n, r in rows.items():
                     w = energy(ph, r["Power (W)"])
-                    if abs(r["24h energy (Wh)"] - w) > 1e-9 * abs(w) + 1e-18:
+                    if not isinstance(r["24h energy (Wh)"], (int, float)):
+                        out.append(("C07", "row-energy", "phase %r %s: energy cell %r is not a number" % (ph, n, r["24h energy (Wh)"])))
+                    elif abs(r["24h energy (Wh)"] - w) > 1e-9 * abs(w) + 1e-18:
                         out.append(("C07", "row-energy", "phase %r %s: E=%r want %r" % (ph, n, r["24h energy (Wh)"], w)))
                         return
                 w = energy(ph, t["Power (W)"])
-                if abs(t["24h energy (Wh)"] - w) > 1e-9 * abs(w) + 1e-18:
+                if not isinstance(t["24h energy (Wh)"], (int, float)):
+                    out.append(("C07", "total-energy", "phase %r total: energy cell %r is not a number" % (ph, t["24h energy (Wh)"])))
+                elif abs(t["24h energy (Wh)"] - w) > 1e-9 * abs(w) + 1e-18:
                     out.append(("C07", "total-energy", "phase %r total: E=%r want %r" % (ph, t["24h energy (Wh)"], w)))
                     return
             per_phase[ph] = t
@@ -554,6 +560,10 @@ def _check_aggregates(model, table, enabled, out, stats, phase_arg):
                 out.append(("C07", "average-" + c.split(" ")[0].lower(), "System average %s=%r want %r" % (c, a[c], want)))
                 return
         if has_energy:
+            cells_ = [per_phase[ph]["24h energy (Wh)"] for ph in table.phases] + [a["24h energy (Wh)"]]
+            if not all(isinstance(c_, (int, float)) for c_ in cells_):
+                out.append(("C07", "average-energy", "energy cells %r are not all numbers" % (cells_,)))
+                return
             es = sum(per_phase[ph]["24h energy (Wh)"] for ph in table.phases)
             if abs(a["24h energy (Wh)"] - es) > 1e-9 * abs(es) + 1e-15 or abs(a["24h energy (Wh)"] - 24.0 * a["Power (W)"]) > 1e-9 * abs(es) + 1e-15:
                 out.append(("C07", "average-energy", "System average E=%r, sum of phase energies %r, 24*P=%r" % (a["24h energy (Wh)"], es, 24.0 * a["Power (W)"])))
